@@ -413,12 +413,15 @@ class Builder:
                         "evaluate_cartesian", "evaluate_cartesian_multi", "subdivide", "elevate", "is_valid",
                         "locate", "nodes", "bary_bad", "locate_bad"])
         if m == "evaluate_barycentric":
-            a, b = rnd.choice([(0.25, 0.5), (0.0, 1.0), (0.125, 0.125), (0.5, 0.5)])
+            a, b = rnd.choice([(0.25, 0.5), (0.0, 1.0), (0.125, 0.125), (0.5, 0.5), (0.6, 0.3), (0.2, 0.7)])
             return self.add("Triangle.evaluate_barycentric", v, [a, b, 1.0 - a - b])
         if m == "bary_bad":
             return self.add("Triangle.evaluate_barycentric", v, rnd.choice([[0.5, 0.5, 0.5], [-0.5, 0.75, 0.75]]))
         if m == "evaluate_barycentric_multi":
-            pv = [[0.25, 0.5, 0.25], [0.0, 0.0, 1.0], [0.5, 0.125, 0.375]][:rnd.randint(1, 3)]
+            # rows whose binary64 sum is exactly 1 and rows whose sum is 1 only up to rounding (0.6 + 0.3 + 0.1 < 1)
+            pool = [[0.25, 0.5, 0.25], [0.0, 0.0, 1.0], [0.5, 0.125, 0.375], [0.6, 0.3, 0.1], [0.2, 0.7, 0.1], [0.3, 0.3, 0.4],
+                    [0.7, 0.2, 0.1]]
+            pv = rnd.sample(pool, rnd.randint(1, 4))
             return self.add("Triangle.evaluate_barycentric_multi", v, [arr(pv, rnd.choice(["F", "C"]))])
         if m == "evaluate_cartesian":
             return self.add("Triangle.evaluate_cartesian", v, list(rnd.choice([(0.25, 0.5), (0.0, 0.0), (0.125, 0.75)])))
